@@ -26,6 +26,13 @@ def _harness_flags():
             flags.append('-DC08_POMDP_NOCHECK_SEEDED=true')
     except OSError:
         pass
+    # fixes/C08-9: do the learned factored models seed their engine?
+    try:
+        cm = re.sub(r'\s+', '', open(os.path.join(os.environ.get('AITB_REPO', '/repo'), 'src/Factored/MDP/CooperativeMaximumLikelihoodModel.cpp')).read())
+        if re.search(r'CooperativeMaximumLikelihoodModel::CooperativeMaximumLikelihoodModel\([^{]*rand_\(Seeder::getSeed\(\)\)[^{]*\{', cm):
+            flags.append('-DC08_FACTORED_LEARNED_SEEDED=true')
+    except OSError:
+        pass
     return tuple(flags)
 
 
